@@ -16,6 +16,7 @@ import urllib.request
 from pathlib import Path
 
 import core
+import targets
 import workflow
 import suitetrace
 from props import c19
@@ -245,8 +246,11 @@ def run(ctx: core.Ctx) -> int:
     # Workflow.tla: which command may change what (declarations, LICENSES/, siblings, where the project-wide declaration lives)
     wf = workflow.stage(ctx, ("C15.", "crash"), tid0=900000)
     mc_viol = list(mc_viol) + wf["mc_violations"]
+    # Targets.tla: the decision table of annotate's destinations (FILE.license absent / file / directory / live or dangling link)
+    tg = targets.stage(ctx, ("C15.", "crash"), tid0=950000)
+    mc_viol += tg["mc_violations"]
     return ctx.finish(
-        evaluations=len(events) + len(wf["events"]),
+        evaluations=len(events) + len(wf["events"]) + len(tg["events"]),
         distinct_nontrivial=len({e["label"] + str(e["k"]) for e in events if e["cmd"]["kind"] not in ("help", "version")}),
         rule="command sequences over {lint x4 formats, lint-file, spdx, spdx -o, supported-licenses, --help, --version, annotate "
              "on files / a binary / a symlink leaving the project, annotate -r on the root / directories / a symlinked "
